@@ -3,7 +3,9 @@
 patch="$1"; tier="$2"; shift 2
 if ! git -C /repo diff --quiet; then echo "/repo is dirty"; exit 3; fi
 git -C /repo apply "$patch" || { echo "patch does not apply"; exit 3; }
-trap 'git -C /repo checkout -- . ; git -C /repo clean -fdq; /venv/bin/python /verif/tools/translate.py >/dev/null' EXIT
+# evidence written while a seeded change is applied must not replace the evidence of the unchanged tree
+evbak=$(mktemp -d); cp -a /verif/evidence/. "$evbak"/
+trap 'git -C /repo checkout -- . ; git -C /repo clean -fdq; /venv/bin/python /verif/tools/translate.py >/dev/null; cp -a "$evbak"/. /verif/evidence/; rm -rf "$evbak"' EXIT
 for p in "$@"; do
   /venv/bin/python /verif/run.py check "$p" --tier "$tier" 2>&1 | grep -E "^VIOLATION|^KNOWN|^C[0-9]+ |BROKEN" | cut -c1-400
   echo "exit=$? ($p)"
